@@ -67,6 +67,8 @@ pub struct World {
     pub inflight: Vec<J>,
     /// use the *_log_patches variants of every mutating call and attach the patches (C09)
     pub log_patches: bool,
+    /// cursors taken at earlier points of the scenario: (object, cursor, mode) (C26)
+    pub cursors: Vec<(automerge::ObjId, automerge::Cursor, &'static str)>,
 }
 
 impl World {
@@ -81,6 +83,7 @@ impl World {
             scenario,
             inflight: vec![],
             log_patches: false,
+            cursors: vec![],
         };
         w.log.push(json!({"ev":"reset","enc":enc_name(enc),"scn":scenario,"family":family}));
         w
@@ -669,5 +672,55 @@ impl World {
                 m.remove("obs");
             }
         }
+    }
+}
+
+impl World {
+    /// C26: remember cursors (both move modes) for random positions of every sequence object of
+    /// replica r.  Nothing is logged: taking a cursor is covered by the projection's round trip.
+    pub fn take_cursors(&mut self, r: usize, rng: &mut Rng, per_obj: usize) {
+        if self.dead || self.cursors.len() > 60 {
+            return;
+        }
+        let v = proj::view(&self.reps[r], None);
+        for o in v.as_array().cloned().unwrap_or_default() {
+            let ty = o["ty"].as_str().unwrap_or("");
+            let len = o["len"].as_u64().unwrap_or(0) as usize;
+            if (ty != "list" && ty != "text") || len == 0 {
+                continue;
+            }
+            let obj = calls::objid_from(&o["id"]);
+            for _ in 0..per_obj {
+                let i = rng.below(len);
+                for (mode, mc) in [("a", automerge::MoveCursor::After), ("b", automerge::MoveCursor::Before)] {
+                    let c = catch_unwind(AssertUnwindSafe(|| self.reps[r].get_cursor_moving(&obj, i, None, mc)));
+                    if let Ok(Ok(c)) = c {
+                        if !self.cursors.iter().any(|(o2, c2, _)| o2 == &obj && c2 == &c) {
+                            self.cursors.push((obj.clone(), c, mode));
+                        }
+                    }
+                }
+            }
+        }
+    }
+
+    /// C26: resolve every remembered cursor on replica r, now or at historical heads.
+    pub fn probe_cursors(&mut self, r: usize, heads: Option<Vec<ChangeHash>>) {
+        if self.cursors.is_empty() {
+            return;
+        }
+        let hj = heads.as_ref().map(|h| enc::hashes_sorted(h)).unwrap_or_default();
+        let ev = json!({"ev":"curs","r":r+1,"heads":hj});
+        self.guarded(r, ev, |w| {
+            let mut list = vec![];
+            for (obj, c, mode) in &w.cursors {
+                let pos = match w.reps[r].get_cursor_position(obj, c, heads.as_deref()) {
+                    Ok(p) => p as i64,
+                    Err(_) => -1,
+                };
+                list.push(json!({"obj": enc::exid(obj), "id": proj::cursor_id(c), "mode": mode, "pos": pos}));
+            }
+            json!({"res":"ok","list":list})
+        });
     }
 }
